@@ -26,6 +26,7 @@ package route
 // paths the fields memoized at ingestion must be the selected sampler's fields.
 
 import (
+	"encoding/hex"
 	"fmt"
 	"strings"
 	"testing"
@@ -108,6 +109,11 @@ type c14Sampler struct {
 	Tag    string // unique token
 	Root   bool   // first rule also needs root.<g> to exist
 	Down   bool   // downstream DynamicSampler keyed on k and root.r
+	// a sampler may also read a field that is a configured trace-ID / parent-ID field name
+	// (rules_complete.yaml does: "trace.parent_id not-exists"):
+	IDCond string // field of an extra FIRST rule idrule_<i>
+	IDForm string // "exists": trace scope, <IDCond> exists; "not-exists-span": span scope, f = v AND <IDCond> not-exists
+	IDKey  string // extra FieldList entry of the downstream sampler (possibly root.-prefixed)
 }
 
 func (s c14Sampler) f() string { return "f_" + s.Tag }
@@ -133,10 +139,23 @@ func c14RulesYAML(samplers []c14Sampler) string {
 	sb.WriteString("RulesVersion: 2\nSamplers:\n")
 	for _, s := range samplers {
 		sb.WriteString("  " + b3YAMLStr(s.Target) + ":\n    RulesBasedSampler:\n      Rules:\n")
+		switch s.IDForm {
+		case "exists":
+			sb.WriteString(fmt.Sprintf("        - Name: \"idrule_%d\"\n          SampleRate: 1\n          Conditions:\n", s.Idx))
+			sb.WriteString("            - Field: " + b3YAMLStr(s.IDCond) + "\n              Operator: exists\n")
+		case "not-exists-span":
+			sb.WriteString(fmt.Sprintf("        - Name: \"idrule_%d\"\n          SampleRate: 1\n          Scope: span\n          Conditions:\n", s.Idx))
+			sb.WriteString("            - Field: " + b3YAMLStr(s.f()) + "\n              Operator: \"=\"\n              Value: " + b3YAMLStr(s.v()) + "\n              Datatype: string\n")
+			sb.WriteString("            - Field: " + b3YAMLStr(s.IDCond) + "\n              Operator: not-exists\n")
+		}
 		sb.WriteString(fmt.Sprintf("        - Name: \"rule_%d\"\n", s.Idx))
 		if s.Down {
+			fl := []string{s.k(), "root." + s.r()}
+			if s.IDKey != "" {
+				fl = append(fl, s.IDKey)
+			}
 			sb.WriteString("          Sampler:\n            DynamicSampler:\n              SampleRate: 1\n")
-			sb.WriteString("              FieldList: " + b3YAMLList([]string{s.k(), "root." + s.r()}) + "\n")
+			sb.WriteString("              FieldList: " + b3YAMLList(fl) + "\n")
 		} else {
 			sb.WriteString("          SampleRate: 1\n")
 		}
@@ -213,7 +232,7 @@ func TestVerif_C14(t *testing.T) {
 	defer hop.Close()
 	dir := t.TempDir()
 
-	run.Cases("destination", run.N(500, 8000), func(ci int, rng *verifkit.Rand) {
+	run.Cases("destination", run.N(300, 8000), func(ci int, rng *verifkit.Rand) {
 		prefix1 := verifkit.Pick(rng, c14Prefixes...)
 		apiKey, class := c14GenKey(rng)
 		dataset := verifkit.Pick(rng, c14DatasetNames...)
@@ -226,6 +245,17 @@ func TestVerif_C14(t *testing.T) {
 		// fileConfig object (the one the routers hold) was told to Reload.
 		phase := func(prefix, step string) {
 			viol := func(sig, what string, witness any) { run.Violation(sig+step, what, witness) }
+			// ID field configuration: default names or custom ones; in 40 % of the phases the
+			// samplers also READ one of the configured ID fields
+			traceNames, parentNames := []string{"trace.trace_id", "traceId"}, []string{"trace.parent_id", "parentId"}
+			if rng.Chance(0.3) {
+				traceNames, parentNames = []string{"tid", "trace.trace_id"}, []string{"pid", "trace.parent_id"}
+			}
+			useID := rng.Chance(0.4)
+			traceField, parentField := traceNames[0], parentNames[0]
+			if path == c14OTLP {
+				traceField, parentField = "trace.trace_id", "trace.parent_id"
+			}
 			// targets: the three names this request could resolve to are each present with p=1/2,
 			// plus unrelated ones, plus __default__
 			prefixed := dataset
@@ -253,11 +283,28 @@ func TestVerif_C14(t *testing.T) {
 			byTarget := map[string]c14Sampler{}
 			for i, tg := range targets {
 				s := c14Sampler{Target: tg, Idx: i, Tag: fmt.Sprintf("%d%s", i, rng.Hex(4)), Root: rng.Chance(0.4), Down: rng.Chance(0.5)}
+				if useID {
+					idf := verifkit.Pick(rng, traceNames[0], parentNames[0], parentNames[0])
+					if path == c14OTLP { // husky names
+						idf = verifkit.Pick(rng, "trace.trace_id", "trace.parent_id", "trace.parent_id")
+					}
+					switch {
+					case s.Down && rng.Bool():
+						s.IDKey = idf
+						if rng.Bool() && (idf == traceNames[0] || idf == "trace.trace_id") {
+							s.IDKey = "root." + idf
+						}
+					case rng.Bool():
+						s.IDCond, s.IDForm = idf, "exists"
+					default:
+						s.IDCond, s.IDForm = idf, "not-exists-span"
+					}
+				}
 				samplers = append(samplers, s)
 				byTarget[tg] = s
 			}
 			rules := c14RulesYAML(samplers)
-			mainYAML := b3MainConfig(prefix, []string{"trace.trace_id", "traceId"}, []string{"trace.parent_id", "parentId"})
+			mainYAML := b3MainConfig(prefix, traceNames, parentNames)
 			if step == "" {
 				var err error
 				cfg, err = b3LoadConfig(dir, mainYAML, rules)
@@ -311,8 +358,17 @@ func TestVerif_C14(t *testing.T) {
 
 			// the trace: the expected sampler(s)' fields always, decoy samplers' fields sometimes
 			nspans := rng.Range(1, 3)
+			if useID && nspans < 2 {
+				nspans = 2 // so that some span has a parent ID
+			}
 			rootAt := rng.Intn(nspans)
 			traceID := "t" + rng.Hex(16)
+			parentID := "par-" + rng.Hex(6)
+			// the values the ID fields hold (husky renders the OTLP byte IDs as hex)
+			traceVal, parentVal := traceID, parentID
+			if path == c14OTLP {
+				traceVal, parentVal = hex.EncodeToString([]byte(traceID[1:17])), "0909090909090909"
+			}
 			carried := map[int]bool{}
 			for _, s := range expSamplers {
 				carried[s.Idx] = true
@@ -327,9 +383,9 @@ func TestVerif_C14(t *testing.T) {
 			for i := 0; i < nspans; i++ {
 				kvs := []E3KV{KV("verif.id", VStr(fmt.Sprintf("s%d", i))), KV("noise", VInt(int64(rng.Intn(100))))}
 				if path != c14OTLP {
-					kvs = append(kvs, KV("trace.trace_id", VStr(traceID)))
+					kvs = append(kvs, KV(traceField, VStr(traceID)))
 					if i != rootAt {
-						kvs = append(kvs, KV("trace.parent_id", VStr("parent")))
+						kvs = append(kvs, KV(parentField, VStr(parentID)))
 					}
 				}
 				for _, s := range samplers {
@@ -557,10 +613,16 @@ func TestVerif_C14(t *testing.T) {
 
 			// which sampler ran
 			var ranIdx = -1
-			var fallback bool
+			var fallback, idrule bool
 			rest := out.Reason
 			rest = strings.TrimPrefix(rest, "rules/trace/")
 			switch {
+			case strings.HasPrefix(rest, "rules/span/idrule_"):
+				fmt.Sscanf(rest, "rules/span/idrule_%d", &ranIdx)
+				idrule = true
+			case strings.HasPrefix(rest, "idrule_"):
+				fmt.Sscanf(rest, "idrule_%d", &ranIdx)
+				idrule = true
 			case strings.HasPrefix(rest, "rule_"):
 				fmt.Sscanf(rest, "rule_%d", &ranIdx)
 			case strings.HasPrefix(rest, "fallback_"):
@@ -579,6 +641,30 @@ func TestVerif_C14(t *testing.T) {
 					fmt.Sprintf("sampler %q decided the trace; the documented selection is %v (key class %s, environment %q, dataset %q, prefix %q)", ran.Target, w.ExpSampler, class.Name, env, dataset, prefix), w)
 				return
 			}
+			// a sampler that reads a configured ID field: did it see what the client sent?
+			if exp.IDCond != "" {
+				isParent := exp.IDCond == parentField
+				want := false // should idrule_<i> have matched?
+				switch exp.IDForm {
+				case "exists":
+					want = true // the trace ID is on every span, a parent ID on every non-root span (nspans >= 2)
+				case "not-exists-span":
+					// f lives on the last span only: the rule matches iff that span lacks the ID field
+					want = isParent && rootAt == nspans-1
+				}
+				if want != idrule {
+					// not suffixed with the step: it has nothing to do with reloading
+					run.Violation("C14/fields/"+path.String()+"/id-field-used-by-sampler-unavailable/"+exp.IDForm+"-condition",
+						fmt.Sprintf("sampler %q: rule idrule_%d on ID field %s (%s) matched=%v, but the client's spans say %v (reason %s; span holding %s is root: %v)",
+							exp.Target, exp.Idx, exp.IDCond, exp.IDForm, idrule, want, out.Reason, exp.f(), rootAt == nspans-1), w)
+				}
+				if idrule {
+					return
+				}
+			} else if idrule {
+				viol("C14/selection/"+class.Name+"/unrecognised-reason", "reason "+out.Reason+" names a rule that was not generated", w)
+				return
+			}
 			if fallback {
 				viol("C14/fields/"+path.String()+"/condition-field-unavailable",
 					fmt.Sprintf("the selected sampler %q ran but its first rule did not match although the trace carries %s=%s (and root.%s): a field it reads was not available", exp.Target, exp.f(), exp.v(), exp.g()), w)
@@ -590,6 +676,16 @@ func TestVerif_C14(t *testing.T) {
 				}
 				if !strings.Contains(out.Key, "rv-"+exp.Tag) {
 					viol("C14/fields/"+path.String()+"/key-root-field-unavailable", fmt.Sprintf("sample key %q lacks the value of root.%s", out.Key, exp.r()), w)
+				}
+				if exp.IDKey != "" {
+					val := parentVal
+					if strings.TrimPrefix(exp.IDKey, "root.") == traceField {
+						val = traceVal
+					}
+					if !strings.Contains(out.Key, val) {
+						run.Violation("C14/fields/"+path.String()+"/id-field-used-by-sampler-unavailable/key-field",
+							fmt.Sprintf("sample key %q lacks the value %q of the ID field %s the client sent", out.Key, val, exp.IDKey), w)
+					}
 				}
 			}
 		}
